@@ -90,6 +90,8 @@ pub fn tuple_pool() -> Vec<RV> {
         RV::Tuple(vec![RV::Tuple(vec![i(1), i(2)]), i(3)]),
         RV::Tuple(vec![RV::Tuple(vec![])]),
         RV::Tuple(vec![RV::Str("a".into()), RV::Float(1.0)]),
+        RV::Tuple(vec![i(1), RV::Tuple(vec![i(2), i(3)])]),
+        RV::Tuple(vec![i(2), RV::Empty]),
         RV::Tuple(vec![
             RV::Tuple(vec![RV::Tuple(vec![i(1), RV::Float(f64::NAN)]), RV::Empty]),
             RV::Bool(true),
@@ -207,7 +209,8 @@ pub fn alphabet23() -> Vec<Tok> {
 /// every operator and punctuation token plus one of each word kind
 pub fn alphabet_all() -> Vec<Tok> {
     let mut v: Vec<Tok> = crate::refmodel::lex::OPS.iter().map(|o| tok(o)).collect();
-    for w in ["1", "2.5", "0x1f", "1e3", "a", "f", "x", "true", "\"s\"", "\"/*\"", "1e"] {
+    // (the last three are words the documentation does not define; a separator must not change them either)
+    for w in ["1", "2.5", "0x1f", "1e3", "a", "f", "x", "true", "\"s\"", "\"/*\"", "1e", "9223372036854775808", "0xffffffffffffffffff", "1e999"] {
         v.push(tok(w));
     }
     v
